@@ -1,6 +1,7 @@
 import RosuModel.Lemmas.ManiaSkillReal
 import RosuModel.Lemmas.CatchSkillReal
 import RosuModel.Lemmas.CatchSkill
+import RosuModel.Lemmas.SkillSim
 import RosuModel.Lemmas.AggregateField
 import RosuModel.Lemmas.Aggregate
 import RosuModel.Props.C16Agg
@@ -154,6 +155,28 @@ theorem concrete_skill_stars_from_exported_peaks (E : Enc R) (hE : ∀ x, E.enc 
   rw [e1] at hv
   cases hv
   exact e2
+
+/-- **The value-level loop and the bit-level loop run in lock step, every arithmetic.**  The
+real-number theorems above are about `processAllV` (strains as numbers, peaks as a plain list);
+`Props/C16.lean` / `Props/C16Agg.lean` are about `Skill.processAll` (strains as 64-bit patterns,
+peaks in the compact `StrainsVec`).  For every arithmetic with an encoding `enc` (`f64::to_bits`)
+such that `dec ∘ enc = id`, patterns are `< 2^64`, `enc 0.0 = 0` and `enc` commutes with
+`StrainsVec::push`'s canonicalisation: whenever the value-level run of a concrete skill ends `ok`,
+the bit-level run over `encFns` ends too, did not panic, exports exactly the encoding of
+`exportPeaksV`, and stored the encoded object strains. -/
+theorem value_level_loop_refines_bit_level [FOps R] (E : Enc R) (hdec : ∀ x, E.dec (E.enc x) = x)
+    (hE : ∀ x, E.enc x < TWO64) (hcanon : ∀ x, canon (E.enc x) = E.enc (pushCanon x))
+    (A : SecArith R) (fmax : R → R → R) (F : FnsV R P σ) (fuel : Nat) (zero : R)
+    (hz : E.enc zero = 0) (s0 : σ) (os : List (Obj R P)) (sv : StateV R σ)
+    (h : processAllV A fmax F fuel (StateV.init zero s0) os = .ok sv)
+    (hl : sv.peaks.length + 1 < SIGN) :
+    ∃ sb, Skill.processAll (encArith E A fmax) (encFns E F) fuel (Skill.State.init zero (some s0)) os = some sb ∧
+      sb.sk = some sv.sk ∧ Skill.exportPeaks sb = some ((exportPeaksV sv).map E.enc) ∧
+      sb.objectStrains = sv.objectStrains.map E.enc := by
+  have := processAll_sim E hdec A fmax F fuel os _ _ (rel_init E zero s0 hz)
+  rw [h] at this
+  obtain ⟨sb, e, r⟩ := this
+  exact ⟨sb, e, r.sk, exportPeaks_of_rel E hE hcanon r hl, r.objs⟩
 
 /-- **(d) locality, every arithmetic, every concrete skill.**  The strain of object `i` depends
 only on objects `≤ i`: if the run over `os₁ ++ os₂` succeeds, the run over `os₁` succeeds and
